@@ -218,6 +218,8 @@ def _structured_session(rng, pfx):
     keys = [(r, t) for r in RANKS for t in ["iter", "x"] if rng.random() < 0.45]
     ops = [["beginCollect", pfx]]
     ops += [["trace", r, t, False] for r, t in keys]
+    if rng.random() < 0.4:      # a label query before anything is registered (reads fiber_label as the session found it)
+        ops.append(["getLabel", rng.choice(RANKS + ["Q", "S"])])
     if rng.random() < 0.8:
         ops += _nest_body(rng, ranks, ["x"])
     ops.append(["endCollect"])
